@@ -1042,7 +1042,7 @@ func Run(cfg vh.Config) (*vh.Result, error) {
 		type exPlan struct{ n, length int }
 		plans := []exPlan{{4, 3}, {1, 4}}
 		if cfg.Thorough() {
-			plans = []exPlan{{5, 4}, {1, 5}}
+			plans = []exPlan{{3, 4}, {1, 5}}
 		}
 		t := int(cfg.Seed % 3)
 		for _, pl := range plans {
@@ -1083,7 +1083,7 @@ func Run(cfg vh.Config) (*vh.Result, error) {
 		}
 		res.Exhaustive = false
 		// (4) random configurations x random / perturbed sequences
-		for i := 0; i < cfg.Pick(1500, 20000); i++ {
+		for i := 0; i < cfg.Pick(1500, 15000); i++ {
 			w := randomCfg(rng)
 			var s []call
 			if rng.Intn(2) == 0 {
